@@ -347,11 +347,14 @@ fn run(thorough: bool, out: &mut Out) {
         format!("00-{}-{}-00", "f".repeat(32), "f".repeat(16)),
         format!("00-{}-{}-ff", "0".repeat(32), "0".repeat(16)),
     ];
-    let subst = ['0', 'f', 'F', 'g', '-', '+', ' ', 'é', '€', '😀', '\u{0}'];
+    //     the substituted characters are EVERY ASCII character (0x00..=0x7f: controls, punctuation, both
+    //     cases, the characters next to the digit and letter ranges) and a few multi-byte ones
+    let mut subst: Vec<char> = (0u8..128).map(|b| b as char).collect();
+    subst.extend(['é', '€', '😀', '\u{b0}', '\u{130}', 'ａ', '１', '\u{a0}', '\u{2028}']);
     for base in &bases {
         let bytes = base.as_bytes();
         for i in 0..=bytes.len() {
-            for c in subst {
+            for &c in &subst {
                 // insertion
                 let mut t = String::new();
                 t.push_str(&base[..i]);
